@@ -52,6 +52,9 @@ def info_py(c):
     gh = ",".join(res(lambda l=l: hexs(c.get_hash(l))) for l in range(4))
     gd = ",".join(res(lambda l=l: str(c.get_depth(l))) for l in range(4))
     rp = res(lambda: hexs(c.calculate_representation_hash()))
+    rp2 = res(lambda: hexs(c.calculate_representation_hash()))      # a second explicit recomputation must agree
+    if rp2 != rp:
+        rp = "unstable:" + rp + "/" + rp2
     hs = ",".join(hexs(h) for h in c._hashes) or "-"
     ds = ",".join(str(d) for d in c._depths) or "-"
     return (f"ok mask={c.level_mask.mask} hashes={hs} depths={ds} gh={gh} gd={gd} repr={rp} "
